@@ -5,7 +5,7 @@ VARIABLES sc, phase
 Base == [V |-> 2, R |-> 2, rwp |-> "seq", owp |-> "one", bnd |-> "scalar", mask |-> "none", ptype |-> "abs", magn |-> "scalar",
          rms |-> -1, pms |-> -1, lin |-> "none", nl |-> "none"]
 FamA == {[Base EXCEPT !.R = R, !.rwp = rwp, !.owp = owp, !.rms = rms, !.pms = pms] :
-           R \in 1..3, rwp \in {"ones", "seq", "zeroend", "allzero", "mixed"}, owp \in {"one", "pair", "zero", "mixed"},
+           R \in 1..3, rwp \in {"ones", "seq", "zeroend", "allzero", "mixed"}, owp \in {"one", "big", "pair", "zero", "mixed"},
            rms \in {-1, 0, 1, 2, 3, 5}, pms \in {-1, 1, 2, 3, 5}}
 FamB == {[Base EXCEPT !.V = V, !.bnd = b, !.mask = mk, !.ptype = pt, !.magn = mg] :
            V \in 1..3, b \in {"default", "scalar", "vector", "mixinf", "crossed", "badlen"},
